@@ -67,8 +67,13 @@ def ChiOracle.clean : ChiOracle := { badProb := false, badSum := false }
 /-- `ChiSquare` raises ValueError before looking at the counts. -/
 def ChiOracle.rejects (o : ChiOracle) : Bool := o.badProb || o.badSum
 
-/-- the float validation of `ChiSquare` (the length check `len(count) != len(prob)` never fires in
-nist_suite.py: both lists have k + 1 entries at every call site). -/
+/-- the float validation of `ChiSquare`.  The length check `len(count) != len(prob)` is not part of the
+oracle: both lists have k + 1 entries at every call site EXCEPT `BinaryMatrixRankImpl` with k = 0 outside
+the table branch, where `RankDistribution(r, c, 0)` returns r + 2 entries (`res[-0:]` is the whole list)
+against one count and the length check DOES fire (`BinaryMatrixRank(x, 18, 3, 3, 0, False)`: ValueError
+"count and prob should have the same length").  That ValueError is decided by the integer arguments and is
+the `k = 0` case of `binaryMatrixRankImpl` (Model/Nist.lean; same exception kind, the message is not
+modelled), not a float matter. -/
 def chiValidate (o : ChiOracle) : Except PyErr Unit :=
   if o.badProb then .error .valueError
   else if o.badSum then .error .valueError
